@@ -537,7 +537,6 @@ def coq_case(case, obs):
     roots, ch = _forest(case)
     sizes = L(P(N(len(s["ins"])), N(len(s["outs"]))) for s in case["comps"])
     rts = []
-    dangling = []
     for r in roots:
         if r[0] == "o":
             s = _spec_of(case, r[1])["outs"][r[2]]
@@ -546,9 +545,6 @@ def coq_case(case, obs):
         else:
             rts.append(P(NONE, L([_coq_tree(case, ch, r)])))
     return C("mkT", sizes, L(rts))
-
-
-_EV = {"check": "EvCheck", "connect": "EvConnect"}
 
 
 def _coq_events(events):
@@ -801,7 +797,15 @@ def generate(rng, tier):
         cases += sweep
         nrand = 40000
     for i in range(nrand):
-        cases.append(_rand_case(rng, deep=(tier != "quick" or i % 4 == 0)))
+        # mostly valid: two thirds of the random cases get up to three re-draws when they contain a defect
+        deep = tier != "quick" or i % 4 == 0
+        c = _rand_case(rng, deep)
+        if i % 3 != 0:
+            for _ in range(3):
+                if not defects(c):
+                    break
+                c = _rand_case(rng, deep)
+        cases.append(c)
     return cases
 
 
@@ -819,12 +823,16 @@ def distribution(cases, obss):
             "defect_sets": dict(dfx), "validate_connect_results": {f"{a}/{b}": n for (a, b), n in res.items()},
             "raising_check": dict(raising),
             "links_observed": sum(1 for o in obss if isinstance(o, dict) and o.get("links") is not None),
-            "metadata_error_with_dead_end_adapter": sum(1 for c, o in zip(cases, obss) if isinstance(o, dict)
-                                                        and o.get("metadata_error") and has_dead_end(c))}
+            "cases_with_dead_end_adapter": sum(1 for c in cases if has_dead_end(c)),
+            "metadata_errors": sum(1 for o in obss if isinstance(o, dict) and o.get("metadata_error"))}
 
 
 def extra_evidence(cases, obss):
-    return {"exhaustive_family_size": sum(1 for _ in _sweep())}
+    return {"exhaustive_family_size": sum(1 for _ in _sweep()),
+            "exhaustive_family_note": "thorough tier runs the whole family; the quick tier a seeded sample of it",
+            "post_validation_connect_errors": "topologies that pass the validation but fail later in connect (static outputs "
+                                              "behind time/delay adapters, dead-end time adapters) are compared on the "
+                                              "validation only; the rest of connect is outside this model"}
 
 
 def shrink_candidates(case):
